@@ -71,6 +71,15 @@ func (e *Engine) verifyFunc(f *ssa.Function, ct *Contract) *FnVC {
 		fv.lines = fv.lines[:len(fv.lines)-1]
 		o.nlines = len(fv.lines)
 	}
+	if ct.Private != "" {
+		pv := ce.eval(ct.Private)
+		if pv.K != KLoc {
+			ce.fail("private: pointer expected")
+		} else {
+			fv.private = pv.T
+			fv.note("assumed: callees with unknown effects cannot reach memory owned by `" + ct.Private + "` (encapsulation)")
+		}
+	}
 	// frame
 	if ct.AssignsAny {
 		fv.frameAny = true
@@ -130,6 +139,35 @@ func (fv *FnVC) finishReturn(in *inst, r retInfo, suffix string) {
 	}
 	if ce.err != nil {
 		fv.specErr(ce.err)
+	}
+	// step clauses of enclosing invariant-cut loops, at exits from inside the loop
+	for _, l := range in.loops {
+		ls := in.loopSpec(l)
+		snap := in.hdrState[l]
+		if ls.Unroll > 0 || len(ls.Steps) == 0 || snap == nil || !l.body[r.node.blk] {
+			continue
+		}
+		ce3 := in.baseEnv(st)
+		for k, v := range snap.vars {
+			if _, dup := ce3.vars[k]; !dup {
+				ce3.vars[k] = v
+			}
+		}
+		for i, nm := range resultNames(sig) {
+			ce3.vars[nm] = vs[i]
+		}
+		ce3.it0 = snap.st
+		ce3.it0vars = snap.vars
+		ce3.vars["exited"] = bval("true")
+		ce3.vars["continued"] = bval("false")
+		ce3.where = fmt.Sprintf("%s loop %d exit", funcKey(f), l.ord)
+		for _, sc := range ls.Steps {
+			t := ce3.evalGoal(sc.Expr)
+			fv.oblige(fmt.Sprintf("%s#step:%s@loop%d/exit%s", funcKey(f), sc.Name, l.ord, suffix), "step", in.propsFor(sc), st.reach, t, sc.Expr, pos)
+		}
+		if ce3.err != nil {
+			fv.specErr(ce3.err)
+		}
 	}
 	// behavioural subtyping: the interface-level contract of this method
 	for _, im := range fv.eng.refinedBy(f) {
